@@ -1,5 +1,6 @@
 import Replicon.Proofs.Server
 import Replicon.Proofs.JointAuth
+import Replicon.Proofs.Sync
 import Replicon.Proofs.ProtocolHash
 /-
 C07 — Unauthorized clients get no replication and only independent events.
@@ -77,5 +78,28 @@ example :
       [[], [], [], [], [(0, some [(5, [(0, 7)])])], [(0, none)], [], [(0, some [(5, [(1, 9)])])], [],
        [(1, some [(5, [(0, 7), (1, 9)])]), (0, none)]] := by
   rfl
+
+/-- **"From the tick it becomes authorized it is sent the complete state visible to it", over
+ALL histories** (`Proofs/Sync.lean`): after any history in which entity identifiers are not
+reused, a client for which the server tracks nothing yet (it was just authorized, or just
+connected under an authorization-free set-up) is sent, in the next frame in which
+`send_replication` runs, an update message whose CHANGES section has a record for every entity
+that carries the replication marker and is visible to it — each of them whole
+(`C07_full_state_on_authorization`). -/
+theorem C07_history_complete_state (s0 : Server) (hw : s0.world = []) (hc0 : s0.clients = []) (ops : List Joint.Op)
+    (hl : Joint.Legal { srv := s0 } ops) (ticked : Bool) (ms : Nat) (parts : Nat → List (List Nat))
+    (hr : (Joint.run { srv := s0 } ops).1.srv.running = true)
+    (hc : (preRun (Joint.run { srv := s0 } ops).1.srv ticked ms).tickChanged = true)
+    (c : Nat) (cl : Cli) (hm : (c, cl) ∈ (preRun (Joint.run { srv := s0 } ops).1.srv ticked ms).clients)
+    (ha : cl.authorized = true) (hfresh : cl.mutTick = []) (e : Nat)
+    (hmk : marked (preRun (Joint.run { srv := s0 } ops).1.srv ticked ms).world e)
+    (hv : Vis.isVisible (preRun (Joint.run { srv := s0 } ops).1.srv ticked ms).white
+      (cell (ranClient (preRun (Joint.run { srv := s0 } ops).1.srv ticked ms) parts (c, cl)).2 e) = true) :
+    ∃ o u, (c, o) ∈ (Joint.frame (Joint.run { srv := s0 } ops).1 ticked ms parts).2.1 ∧
+      o.update = some u ∧ e ∈ u.changes.map (·.ent) := by
+  have invp := Joint.history_pre s0 hw hc0 ops hl ticked ms
+  have hk : e ∉ keys cl := by unfold keys; rw [hfresh]; simp
+  obtain ⟨u, hu, he⟩ := frame_gained_whole _ parts invp (c, cl) hm ha e hk ⟨hmk, hv⟩
+  exact ⟨_, u, Joint.frame_out_of_client _ ticked ms parts hr hc c cl hm ha, hu, he⟩
 
 end Replicon.C07
